@@ -225,8 +225,9 @@ def none_linetable(ncodeunits):
     return bytes(out)
 
 
-def code_fields(tab, co_code, hx):
+def code_fields(tab, co_code, hx, ntab=None):
     """canonical `fields` for refworker.op_mkcode: padded tables so that every table index resolves"""
+    NTAB = ntab or globals()["NTAB"]
     v = tab.v
     py2 = v < (3, 0)
     sk = "y" if py2 else "t"
